@@ -323,7 +323,10 @@ def run(repo: Repo, tier: str) -> Report:
         args = [ast.unparse(a) for a in c.args]
         okred = args[:2] == [p_func, p_dim] and kws.get("keep_attrs") == "True"
         gs = [(norm_stmt(g.stmt.test), arm) for g, arm in cfg.guards_of(n)]
-        okred = okred and (f"{p_func} is not None", True) in gs
+        base = [(norm_stmt(g.stmt.test), arm) for g, arm in cfg.guards_of(y)]
+        extra_g = [g for g in gs if g not in base]
+        # the reduction runs for EVERY yielded window of a reducing aggregator: its only own condition is `func is not None`
+        okred = okred and extra_g == [(f"{p_func} is not None", True)]
     ob("R-FORMULA", "reduction applies func over dim, keeps the agg_* attrs, skipped when func is None", okred,
        f"reduce call: {ast.unparse(red[0]) if red else None}", red[0] if red else "reduce")
 
